@@ -237,6 +237,8 @@ func c17Sequences(c *Ctx, r *Rng) {
 	for i := 0; i < n; i++ {
 		globalOff := r.Chance(25)
 		gitcfg := map[string][]string{"credential.helper": {helper},
+			"lfs.cachecredentials": {"false"}, // the in-process cache (C10) would answer repeated fills without any exchange
+			"credential.usehttppath":                                {Pick(r, []string{"false", "true"})},
 			"credential.https://legacy.example.com.protectprotocol": {"false"},
 			"credential.https://strict.example.com.protectprotocol": {"true"}}
 		dflt := "1"
@@ -250,7 +252,8 @@ func c17Sequences(c *Ctx, r *Rng) {
 		for j := 0; j < k; j++ {
 			host := Pick(r, []string{"legacy", "strict", "plain", "plain"})
 			user := Pick(r, []string{"alice", "al%0Dice", "alice%0Dhost=evil.example.com", "bob"})
-			u, err := url.Parse("https://" + user + "@" + host + ".example.com/repo")
+			path := Pick(r, []string{"repo", "repo", "repo", "re%0Dpo", "org/re%0Dpo.git"})
+			u, err := url.Parse("https://" + user + "@" + host + ".example.com/" + path)
 			if err != nil {
 				continue
 			}
@@ -306,6 +309,63 @@ func c17Sequences(c *Ctx, r *Rng) {
 			c.R.Count("seq.step." + g)
 			if hasCR {
 				c.R.Count("seq.step.cr")
+			}
+			// what comes back from a fill is replayed to `git credential approve` / `reject` after the HTTP
+			// round trip; an older Git hands back values with a carriage return in them, and the same
+			// protection applies to that exchange
+			if r.Chance(55) {
+				sub := Pick(r, []string{"approve", "reject"})
+				back := creds.Creds{}
+				for key, v := range wrapper.Input {
+					back[key] = v
+				}
+				pw := Pick(r, []string{"p", "p", "s3cret\rhost=evil.example.com", "pw\r", "a\x00b"})
+				un := Pick(r, []string{"u", "u", "u", "us\rer"})
+				back["username"], back["password"] = []string{un}, []string{pw}
+				os.Remove(rec)
+				oldwd, _ := os.Getwd()
+				os.Chdir(dir)
+				os.Setenv("GIT_CONFIG_COUNT", "1")
+				os.Setenv("GIT_CONFIG_KEY_0", "credential.helper")
+				os.Setenv("GIT_CONFIG_VALUE_0", helper)
+				oldPath := os.Getenv("PATH")
+				os.Setenv("PATH", fakeBin+":"+oldPath)
+				var aerr error
+				if sub == "approve" {
+					aerr = wrapper.CredentialHelper.Approve(back)
+				} else {
+					aerr = wrapper.CredentialHelper.Reject(back)
+				}
+				os.Setenv("PATH", oldPath)
+				os.Unsetenv("GIT_CONFIG_COUNT")
+				os.Chdir(oldwd)
+				recorded2, _ := os.ReadFile(rec)
+				var bkeys, bps []string
+				for key := range back {
+					bkeys = append(bkeys, key)
+				}
+				sort.Strings(bkeys)
+				cr2, nul2 := false, false
+				for _, key := range bkeys {
+					for _, v := range back[key] {
+						bps = append(bps, hx([]byte(key))+":"+hx([]byte(v)))
+						cr2 = cr2 || strings.Contains(v, "\r")
+						nul2 = nul2 || strings.Contains(v, "\x00")
+					}
+				}
+				steps = append(steps, "f"+strings.Join(bps, ","))
+				if len(recorded2) > 0 {
+					got = append(got, "a")
+				} else if aerr != nil {
+					got = append(got, "r")
+				} else {
+					got = append(got, "a")
+				}
+				if len(recorded2) > 0 && ((protect && cr2) || nul2) {
+					c.R.Add(Finding{Kind: "oracle", What: "`git credential " + sub + "` was handed a value with a carriage return (protection enabled) or NUL",
+						Case: fmt.Sprintf("C17 seq %s %s", dflt, strings.Join(steps, ";")), Impl: clip(hx(recorded2), 300)})
+				}
+				c.R.Count("seq.step." + sub)
 			}
 		}
 		line := fmt.Sprintf("C17 seq %s %s", dflt, strings.Join(steps, ";"))
@@ -380,7 +440,8 @@ func c17EndToEnd(c *Ctx, r *Rng) {
 			www = append(www, "Basic realm=\"x"+strings.NewReplacer("%0a", "\n", "%0d", "\r", "%00", "\x00", "%0A", "\n").Replace(ctl)+"y\"")
 		}
 		protect := r.Chance(70)
-		gitcfg := map[string][]string{"credential.helper": {helper}, "credential.usehttppath": {"true"}}
+		gitcfg := map[string][]string{"credential.helper": {helper},
+			"lfs.cachecredentials": {"false"}, "credential.usehttppath": {"true"}}
 		if !protect {
 			gitcfg["credential.protectprotocol"] = []string{"false"}
 		}
